@@ -48,7 +48,7 @@ def _case(draw, nr_max, min_pots=1, max_pots=4, defaults=False):
     cutoff, nr = draw(gen.grid_rc(nr_max))
     if route == "potable":
         # [Tabulation] items may be left out: documented defaults cutoff 10.0, nr 1001
-        given = draw(st.sampled_from(["nr", "cutoff", "none"])) if defaults else "both"
+        given = defaults if defaults else "both"
         if given in ("nr", "none"):
             cutoff = 10.0
         if given in ("cutoff", "none"):
@@ -86,8 +86,9 @@ def strategy(tier):
 def strata(tier):
     if tier == "quick":
         return [("one", _case(60, 1, 1), 4), ("several", _case(60, 2, 4), 5), ("large", _case(400), 1),
-                ("root_on_grid", _special("root_on_grid"), 1), ("decay_tail", _special("decay_tail"), 1), ("rewrite", _rewrite(), 1), ("defaults", _case(60, 1, 2, True), 1)]
-    return [("rewrite", _rewrite(), 1), ("defaults", _case(60, 1, 2, True), 1), ("one", _case(60, 1, 1), 3), ("several", _case(60, 2, 4), 3), ("medium", _case(400), 3),
+                ("root_on_grid", _special("root_on_grid"), 1), ("decay_tail", _special("decay_tail"), 1), ("rewrite", _rewrite(), 1), ] + [
+            ("defaults:" + g, _case(60, 1, 2, g), 0.4) for g in ("nr", "cutoff", "none")]
+    return [("defaults:" + g, _case(60, 1, 2, g), 0.4) for g in ("nr", "cutoff", "none")] + [("rewrite", _rewrite(), 1), ("one", _case(60, 1, 1), 3), ("several", _case(60, 2, 4), 3), ("medium", _case(400), 3),
             ("large", _case(5000, 1, 2), 1), ("root_on_grid", _special("root_on_grid"), 1),
             ("decay_tail", _special("decay_tail"), 1)]
 
